@@ -193,6 +193,59 @@ pub fn run(o: &Opts) {
       out.nontrivial(&(l.to_string(), pt.to_string(), files.len()));
     }
   }
+  // ---- `sg run -p` WITHOUT -l (the language of each file is inferred, the pattern is built per language) on a tree
+  //      mixing many languages, with patterns that build in every language, in some only (a selector kind that only
+  //      some grammars have), or in none: a file's findings must not depend on which files were met before it
+  {
+    let dir = fresh_dir(&o.out, "mixed_langs");
+    let bodies: [(&str, &str); 16] = [
+      ("a.js", "console.log(1)\nfoo(2)\n"), ("b/a.ts", "console.log(3)\nfoo(4)\n"), ("b/c.tsx", "console.log(5)\nfoo(6)\n"), ("p.py", "console.log(7)\nfoo(8)\n"),
+      ("b/r.rb", "console.log(9)\nfoo(10)\n"), ("l.lua", "console.log(11)\nfoo(12)\n"), ("b/d/m.rs", "fn main() { console.log(13); foo(14); }\n"), ("c.c", "void f() { console.log(15); foo(16); }\n"),
+      ("b/g.go", "package main\nfunc f() { console.log(17); foo(18) }\n"), ("y.yml", "a: console.log(19)\nb: foo(20)\n"), ("b/j.json", "{\"a\": 1}\n"), ("h.html", "<p>x</p>\n<script>console.log(21); foo(22)</script>\n"),
+      ("b/d/k.kt", "fun f() { console.log(23); foo(24) }\n"), ("s.swift", "console.log(25)\nfoo(26)\n"), ("b/z.java", "class A { void f() { console.log(27); foo(28); } }\n"), ("b/d/x.cpp", "void f() { console.log(29); foo(30); }\n"),
+    ];
+    for (rel, body) in bodies {
+      let p = dir.join(rel);
+      std::fs::create_dir_all(p.parent().unwrap()).unwrap();
+      std::fs::write(&p, body).unwrap();
+    }
+    let pats: [(&str, Option<&str>); 5] = [("foo($A)", None), ("console.log($A)", Some("call_expression")), ("console.log($A)", Some("call")), ("foo($A)", Some("function_call")), ("class A { $$$B }", None)];
+    out.count("tree:mixed-languages-inferred");
+    for (pt, sel) in pats {
+      let mut base: Vec<&str> = vec!["run", "-p", pt];
+      if let Some(s) = sel {
+        base.push("--selector");
+        base.push(s);
+      }
+      base.push("--json=stream");
+      let mut union: Vec<Key> = vec![];
+      for (rel, _) in bodies {
+        let mut a = base.clone();
+        a.push(rel);
+        let r = sg(&dir, &a, None, 60);
+        union.extend(json_lines(&r.stdout).unwrap_or_default().iter().map(rec_key));
+      }
+      union.sort();
+      for j in &jobs {
+        for rep in 0..2 {
+          let js = j.to_string();
+          let mut a = base.clone();
+          a.extend(["-j", &js, "."]);
+          let r = sg(&dir, &a, None, 120);
+          out.checked();
+          let mut got: Vec<Key> = json_lines(&r.stdout).unwrap_or_default().iter().map(rec_key).collect();
+          got.sort();
+          if r.timed_out || got != union {
+            out.oracle_fail("", &format!("sg run -p {pt:?} (selector {sel:?}, language inferred per file) -j {j} (repeat {rep}) on a tree of 16 files in 16 languages: {} records, the union of the files scanned alone has {}", got.len(), union.len()),
+              json!({"stream": "c17-mixed-languages", "dir": dir.to_string_lossy(), "pattern": pt, "selector": sel}));
+          }
+        }
+      }
+      if !union.is_empty() {
+        out.nontrivial(&("mixed-languages", pt, sel, union.len()));
+      }
+    }
+  }
   // ---- `sg scan` with rules scoped to different paths (same number of rules per file, different rules): what a
   //      worker computed for one file must not be reused for a file to which other rules apply
   {
